@@ -222,7 +222,7 @@ def summarize(plan, res):
             if s.startswith('send'): ops.append(hashlib.sha256(s.encode()).hexdigest()[:6])
     mem = [e.kv() for e in res.events if e.kind == 'mem']
     return {'nontrivial': len(plan.meta.get('kinds', [])) >= 4 and plan.meta.get('shared', False),
-            'abstract': hashlib.sha256(' '.join(ops).encode()).hexdigest()[:16],
+            'abstract': hashlib.sha256((' '.join(ops) + ' ' + ' '.join(plan.meta.get('efuns') or [])).encode()).hexdigest()[:16],
             'probes': {'rounds_completed': len(mem), 'faults_fired': len(res.of('fault_fired')), 'many_holders_runs': 1 if plan.meta.get('many') else 0,
                        'errors_reported': sum(1 for e in res.events if e.kind == 'R' and e.rest.startswith('ERR ')),
                        'call_out_values_fired': sum(1 for e in res.events if e.kind == 'R' and e.rest.startswith('COVAL ')),
@@ -272,6 +272,9 @@ def _parse_spec(path='/repo/lib/efuns/func_spec.c'):
 VALUE_EXPRS = ['0', '1', '-1', '7', '2147483647', '(-2147483647 - 1)', '4294967296', '9223372036854775807', '(-9223372036854775807 - 1)',
                '0.0', '1.5', '-2.5', '1.0e300', '""', '"abc"', '"a b c"', '"%s%d%O"', '"%"', 'repeat_string("xy", 2000)', '"/u/a"', '"0123"', '"ab\\ncd"', '"^(a|b)*$"',
                '({ })', '({ 1, 2, 3 })', '({ "a", "b" })', '({ ({ 1 }), ([ ]) })', 'allocate(100)', '({ this_object() })', '({ "b", "a", "b", 3, 1.5 })',
+               '"%5s|%-5s|%|5s"', '"%=20s"', '"%#20s"', '"%*d"', '"%@d"', '"%O%O"', '"%c"', '"%5.2f"', '"%020d"', '"%-=30s"', '"%#-40.3s"', '"%^"', '"%:3d"', '"%\'x\'10s"',
+               '"("', '"[a-"', '"a{1,"', '"\\\\"', '".*"', '"(a*)*b"', '"%s %d %*s"', 'explode(repeat_string("ab cd ", 30), " ")', '({ "one", "two three", "four\nfive", "" })',
+               '-7', '255', '256', '65535', '65536', '1000000', '-1000000', '"0"', '" "', '"\n"', '"a\tb"', 'repeat_string("ab ", 30)',
                '([ ])', '([ "a" : 1, "b" : ({ 2 }) ])', '([ 1 : "x", 2 : ([ 3 : 4 ]) ])', '(: $1 :)', '(: fp_target :)', '(: $1 + $2 :)', 'allocate_buffer(8)', 'this_object()', 'new(class CK)']
 
 
@@ -324,7 +327,8 @@ _gen_values = gen
 
 def gen(rng, tier, i):
     # one scenario in four sends values through the efun surface instead of the scripted plumbing
-    if rng.random() < 0.25: return gen_efuns(rng, tier, i)
+    import os
+    if rng.random() < (1.0 if os.environ.get('C06_EFUNS_ONLY') else 0.25): return gen_efuns(rng, tier, i)
     return _gen_values(rng, tier, i)
 
 
